@@ -568,6 +568,86 @@ func navigate(c Case, srv *server, latest map[string]string, spans map[string][]
 		}
 		return rep, true
 	}
+	// documentSymbol, absolutely: one symbol per declared name (first declaration), its
+	// detail the declared type as written, its range the declared name
+	{
+		id++
+		rep := srv.handle(mkReq(Msg{Kind: "symbols", URI: u}, id))
+		res.Handled++
+		if rep.crashed {
+			res.Violation = viol("navigation", "crash-on-valid-script", "documentSymbol crashes: "+rep.panicV)
+			return
+		}
+		var want []any
+		seenDecl := map[string]bool{}
+		declType := map[string]string{}
+		for _, s2 := range sp {
+			if s2.Kind == "type" {
+				continue
+			}
+		}
+		// the printer emits a "type" span right before each "decl" span
+		for i := 0; i+1 < len(sp); i++ {
+			if sp[i].Kind == "type" && sp[i+1].Kind == "decl" && !seenDecl[sp[i+1].Name] {
+				seenDecl[sp[i+1].Name] = true
+				declType[sp[i+1].Name] = sp[i].Name
+				d := sp[i+1]
+				rng := map[string]any{"start": map[string]any{"line": float64(d.Line), "character": float64(d.Col)}, "end": map[string]any{"line": float64(d.Line), "character": float64(d.Col + d.Len)}}
+				want = append(want, map[string]any{"name": d.Name, "detail": sp[i].Name, "kind": float64(13), "range": rng, "selectionRange": rng})
+			}
+		}
+		got, exp := answerCanon("symbols", rep.result), "symbols:"+strings.Join(sortedList(want), ",")
+		res.Probes["nav_symbols_checked_against_the_generator"]++
+		if got != exp {
+			res.Violation = viol("navigation", "symbols-wrong", fmt.Sprintf("documentSymbol returned %s ; the text declares %s\n%s", core.Truncate(got, 500), core.Truncate(exp, 500), text))
+			return
+		}
+	}
+	// positions past the end of a line, as far out as the tokens of the NEXT line sit: a server
+	// that folds them onto the following line would answer with that line's variables
+	for _, sp2 := range sp {
+		if (sp2.Kind != "use" && sp2.Kind != "fn") || sp2.Line == 0 || sp2.Line-1 >= len(ll) {
+			continue
+		}
+		line := sp2.Line - 1
+		for _, ch := range []int{ll[line] + 1 + sp2.Col, ll[line] + 1 + sp2.Col + 1, ll[line] + 2 + sp2.Col} {
+			inSpan := false
+			for _, o := range sp {
+				if o.Line == line && (o.Kind == "use" || o.Kind == "fn") && ch >= o.Col && ch <= o.Col+o.Len {
+					inSpan = true
+				}
+			}
+			if inSpan {
+				continue
+			}
+			h, ok := ask("hover", line, ch)
+			if !ok {
+				return
+			}
+			d, ok := ask("definition", line, ch)
+			if !ok {
+				return
+			}
+			res.Probes["nav_positions_past_end_of_line"]++
+			if h.result != nil || d.result != nil {
+				res.Violation = viol("navigation", "answer-outside-any-use", fmt.Sprintf("at (%d,%d), past the end of the line, hover=%s definition=%s\n%s", line, ch, core.Truncate(canonJSON(h.result), 200), core.Truncate(canonJSON(d.result), 200), text))
+				return
+			}
+		}
+	}
+	// lines past the end of the file
+	for _, line := range []int{len(ll), len(ll) + 1, len(ll) + 7} {
+		for _, ch := range []int{0, 3, 9} {
+			h, ok := ask("hover", line, ch)
+			if !ok {
+				return
+			}
+			if h.result != nil && line > len(ll) {
+				res.Violation = viol("navigation", "answer-outside-any-use", fmt.Sprintf("at (%d,%d), past the end of the file, hover=%s\n%s", line, ch, core.Truncate(canonJSON(h.result), 200), text))
+				return
+			}
+		}
+	}
 	total := 0
 	for _, n := range ll {
 		total += n + 2
